@@ -16,3 +16,15 @@ def run(tier, seed):
 
 def replay(data, tier, seed):
     return coretrace.run("C04", tier, seed)
+
+
+def search(tier, seed):
+    """Directed search used when a proof or the correspondence is broken: long runs (many refresh intervals), so that a refresh
+    period that is longer than tREFI - however slightly - accumulates beyond the fixed service latency the property allows."""
+    from vlib import core
+    from vlib.core import Result
+    res = Result()
+    jobs = [(seed, 1000 + i, 9000 if tier == "quick" else 30000, "C04") for i in range(8)]
+    for r in core.pmap(coretrace.trace_job, jobs):
+        res.merge(r)
+    return res
